@@ -3,7 +3,7 @@
 use iroh_docs::{
     actor::{OpenOpts, SyncHandle},
     store::Store,
-    Capability, ContentStatus, Event, NamespaceId, SignedEntry, SyncOutcome,
+    ContentStatus, Event, NamespaceId, SignedEntry, SyncOutcome,
 };
 use serde_json::json;
 
